@@ -27,10 +27,12 @@ def make_problem(ndim, md, forced):
     elif ndim == 2:
         tube.make_2D(tube.h / 2)
     tprog = 2 ** md
-    times = np.array([0.0, float(tprog)])
+    # two steps, so that an attempt running past the end of step 1 is recorded rather than
+    # rejected by the pressure interpolant
+    times = np.array([0.0, float(tprog), 4.0 * float(tprog)])
     tube.set_times(times)
     # pressure(t) = t so that the pressure handed to an attempt identifies its progress value
-    tube.set_pressure_bc(receiver.PressureBC(times, np.array([0.0, float(tprog)])))
+    tube.set_pressure_bc(receiver.PressureBC(times, np.array(times)))
     emodel = elasticity.IsotropicLinearElasticModel(150000.0, "youngs", 0.3, "poissons")
     mat = models.SmallStrainElasticity(emodel)
     solver = structural.PythonTubeSolver(max_divide=md, force_divide=forced, verbose=False)
@@ -81,6 +83,9 @@ def run_real(ndim, md, forced, bits, dtop=0.8, prob=None):
         except RuntimeError as e:
             ret = None
             outcome = "raise"
+        except Exception as e:  # anything else is not a documented outcome of a step
+            ret = None
+            outcome = "error:%s" % type(e).__name__
     finally:
         for n in names:
             setattr(structural, n, saved[n])
@@ -130,9 +135,14 @@ def predicate(r, md, forced):
             bad.append("returned state is not the state of the last accepted attempt")
         if fails >= budget:
             bad.append("returned although %d failures reached the subdivision limit %d" % (fails, budget))
-    else:
+    elif r["outcome"] == "raise":
         if fails < budget:
             bad.append("raised with %d failures although the limit is %d" % (fails, budget))
+    else:
+        bad.append("step ended with an undocumented exception (%s)" % r["outcome"])
+    for c in r["calls"]:
+        if c["t_next"] > tprog:
+            bad.append("attempt %d runs past the end of the step (%g > %g)" % (c["n"], c["t_next"], tprog))
     if r["wrong_dim"]:
         bad.append("dispatched to the wrong dimension solver %s" % r["wrong_dim"])
     return bad
